@@ -2399,7 +2399,7 @@ func (p *parser) parseProperty(startLoc logger.Loc, kind js_ast.PropertyKind, op
 
 				case "private", "protected", "public", "readonly", "override":
 					// Skip over TypeScript keywords
-					if opts.isClass && p.options.ts.Parse {
+					if opts.isClass && p.options.ts.Parse && !p.lexer.HasNewlineBefore {
 						return p.parseProperty(startLoc, kind, opts, nil)
 					}
 				}
@@ -3077,7 +3077,10 @@ func (p *parser) parseAsyncPrefixExpr(asyncRange logger.Range, level js_ast.L, f
 		// "async () => {}"
 		case js_lexer.TOpenParen:
 			p.lexer.Next()
-			return p.parseParenExpr(asyncRange.Loc, level, parenExprOpts{asyncRange: asyncRange})
+			return p.parseParenExpr(asyncRange.Loc, level, parenExprOpts{
+				asyncRange:                    asyncRange,
+				isAfterQuestionAndBeforeColon: (flags & exprFlagAfterQuestionAndBeforeColon) != 0,
+			})
 
 		// "async<T>()"
 		// "async <T>() => {}"
